@@ -41,8 +41,8 @@ Definition legacy_h_pending (ixa : N) (_ : unit) (i : N) (v : value) : option (c
 (* the terminal aborts the query with 0x9C: the old handler said "nothing pending", and end-of-day went ahead *)
 Lemma F11_refuted : forall ixa, fst (legacy_h_pending ixa tt ixa (VRec [VInt 156; VNone])) = Some (ROk []).
 Proof. intros ixa. unfold legacy_h_pending. rewrite N.eqb_refl. reflexivity. Qed.
-Lemma F11_now : forall ixa, fst (h_pending ixa tt ixa (VRec [VInt 156; VNone])) = Some (RErr (EAborted 156)).
-Proof. intros ixa. apply (pending_query_abort_surfaces 156 ixa [VNone]). lia. Qed.
+Lemma F11_now : forall ixa sk, fst (h_pending ixa sk tt ixa (VRec [VInt 156; VNone])) = Some (RErr (EAborted 156)).
+Proof. intros ixa sk. apply (pending_query_abort_surfaces 156 ixa sk [VNone]). lia. Qed.
 
 (* ---------- F13 (C09): get_pending bailed on an unexpected reply in the middle of the exchange and kept the connection ---------- *)
 (* the old function handed back the world as the consumer loop left it: the current connection was still there *)
@@ -50,10 +50,10 @@ Definition legacy_get_pending (cfg : config) (w : world) : cres (list N) * world
   let cmd := mk_cmd "zvt::packets::PartialReversal" [] [(135, VSome (VInt 65535))] in
   let q := seq_of "zvt::sequences::PartialReversal" cmd in
   let ixa := variant_ix "zvt::sequences::PartialReversalResponse" "PartialReversalAbort" in
-  consume LOOPFUEL cfg (start_retry q TIMEOUT) w tt (h_pending ixa) (fun _ => RErr EIncomplete).
-(* a terminal that answers the query with an intermediate status and stays connected: the old client kept connection 0 *)
+  consume LOOPFUEL cfg (start_retry q TIMEOUT) w tt (h_pending ixa []) (fun _ => RErr EIncomplete).
+(* a terminal that answers the query with a completion (unexpected here) and stays connected: the old client kept connection 0 *)
 Definition f13_world : world :=
-  {| w_conns := [{| k_queue := []; k_close := false; k_buf := [128; 0; 0; 4; 255; 1; 23] |}]; w_scripts := []; w_cur := Some 0; w_now := 5; w_log := [] |}.
+  {| w_conns := [{| k_queue := []; k_close := false; k_buf := [128; 0; 0; 6; 15; 0] |}]; w_scripts := []; w_cur := Some 0; w_now := 5; w_log := [] |}.
 Lemma F13_refuted : fst (legacy_get_pending any_cfg f13_world) = RErr EUnexpectedPacket /\ w_cur (snd (legacy_get_pending any_cfg f13_world)) = Some 0.
 Proof. split; vm_compute; reflexivity. Qed.
 Lemma F13_now : fst (get_pending any_cfg f13_world) = RErr EUnexpectedPacket /\ w_cur (snd (get_pending any_cfg f13_world)) = None.
@@ -66,3 +66,24 @@ Proof. split; vm_compute; reflexivity. Qed.
 Lemma F14_now : cfg_ok {| c_serial := []; c_terminal_id := []; c_currency := 978; c_amount := 1; c_read_card_timeout := 15; c_password := 1000000; c_max := 1 |} = false
              /\ forall ops scripts, feig_history {| c_serial := []; c_terminal_id := []; c_currency := 978; c_amount := 1; c_read_card_timeout := 15; c_password := 1000000; c_max := 1 |} ops scripts = None.
 Proof. split; [reflexivity|intros; reflexivity]. Qed.
+
+(* ---------- F17 (C20): the query treated a progress report in front of its answer as an unexpected packet ---------- *)
+(* [04 FF 01 17, 06 1E 01 9C]: the handler of F13's time (no packets to pass over) stopped at the first one with UnexpectedPacket —
+   the abort code 0x9C never surfaced; now the progress report is passed over and the abort is what the call reports *)
+Lemma F17_refuted : forall ixa i v, i <> ixa -> fst (h_pending ixa [] tt i v) = Some (RErr EUnexpectedPacket).
+Proof. intros ixa i v H. apply pending_other_packet_is_unexpected; [exact H|intros []]. Qed.
+Lemma F17_now : forall ixa i v, i <> ixa -> h_pending ixa [i] tt i v = (None, tt)
+             /\ fst (h_pending ixa [i] tt ixa (VRec [VInt 156; VNone])) = Some (RErr (EAborted 156)).
+Proof. intros ixa i v H. split; [apply pending_progress_is_skipped; [exact H|left; reflexivity]|apply (pending_query_abort_surfaces 156 ixa [i] [VNone]); lia]. Qed.
+
+(* ---------- F16 (C18): read_card looked for applications only at the top level of the status TLV ---------- *)
+(* the list as the code before the fix saw it: top-level entries only *)
+Definition legacy_application_list (tlv : value) : list value :=
+  match field_of "zvt::packets::tlv::StatusInformation" tlv 96 with Some (VList l) => l | _ => [] end.
+(* a status TLV whose only application entry sits in the "applications on card" container (as the cVEND sends it):
+   the old list is empty — the card went down the UID path and became a membership card — the new one is not *)
+Lemma F16_refuted_then_repaired : forall tlv e,
+  field_of "zvt::packets::tlv::StatusInformation" tlv 96 = Some (VList []) ->
+  field_of "zvt::packets::tlv::StatusInformation" tlv 98 = Some (VSome (VRec [VList [e]])) ->
+  legacy_application_list tlv = [] /\ application_list tlv = [e].
+Proof. intros tlv e H1 H2. unfold legacy_application_list, application_list. rewrite H1, H2. split; reflexivity. Qed.
